@@ -8,7 +8,8 @@ struct RunOpts {
     bool check_data = true;      // compare read buffers / file images with the model
     bool check_files = true;     // raw-image oracles at checkpoints
     bool check_buffers = true;   // canaries / caller buffers unchanged (C13)
-    bool check_leaks = true;     // resource accounting when every file is closed (C17)
+    bool check_leaks = true;
+    bool check_usage = false;    // attached-buffer usage accounting (C13)     // resource accounting when every file is closed (C17)
     bool record_iocalls = false;
     bool trace = false;
     bool layout_strict = true;   // C03 layout rules at checkpoints
